@@ -113,6 +113,10 @@ def http_vectors(rng: random.Random, tier_: str) -> list[dict[str, Any]]:
     for tl in (0, 1):
         for el in ((14.5, 137.25) if tier_ == 'quick' else (9.0, 14.5, 30.0, 38.5, 95.5, 137.25)):
             add('hand_made.mpd', f'start={ast.strftime("%Y-%m-%dT%H:%M:%SZ")}&depth=30' + ('&timeline=1' if tl else ''), ast + sec(el), 'renum')
+    # a stream with option defaults of its own (time-shift buffer of 30 s): the depth a manifest resolved - given explicitly, also
+    # when it equals the global default of 1800 s, or taken from the stream - is the depth its media URLs are served with
+    for q in ('depth=1800', '', 'depth=600', 'depth=1800&timeline=1'):
+        add('hand_made.mpd', (q + '&' if q else '') + f'start={ast.strftime("%Y-%m-%dT%H:%M:%SZ")}', ast + sec(3600.5), 'sdef')
     # the default window (30 minutes): partial walk (oldest, newest and a sample in between)
     add('hand_made.mpd', '', day + sec(50000.5))
     add('hand_made.mpd', 'timeline=1', day + sec(50003.999999))
@@ -198,6 +202,8 @@ def run(prop: str, tier_: str) -> int:
             from harness.core import REPO as _REPO
             da.add_fixture('bbb', directory='vtt', title='stored without tfdt', only={'bbb_v7', 'bbb_a1'},
                            extra=[(_REPO / 'tests' / 'fixtures' / 'webvtt.mp4', 'vtt_t2')])
+            da.add_fixture('bbb', directory='sdef', title='stream with its own option defaults', only={'bbb_v7', 'bbb_a1'},
+                           defaults={'timeShiftBufferDepth': 30})
             da.add_fixture('bbb', directory='aref', title='audio is the timing reference', only={'bbb_v7', 'bbb_a1'}, ref_stem='bbb_a1')
             from harness.synth import renumber_mfhd
             rn = []
